@@ -191,7 +191,7 @@ class untraced:
         return False
 
 
-GIVE_UP_LIMIT = 300
+GIVE_UP_LIMIT = 100
 ON_GIVE_UP_LIMIT = None
 
 
